@@ -123,6 +123,10 @@ func main() {
 				fmt.Fprintf(out, "%s | BADOP\n", line)
 				continue
 			}
+			risky := f[0] == "mlr" || f[0] == "verbs" || f[0] == "pair" || f[0] == "bystand" || f[0] == "rt" || f[0] == "rd" || f[0] == "style"
+			if risky {
+				out.Flush() // the op may kill the process (os.Exit inside Miller): keep everything before it
+			}
 			res := guard(func() string { return op(f[1:]) })
 			fmt.Fprintf(out, "%s | %s\n", line, res)
 		}
